@@ -27,6 +27,10 @@ import LitexModel.DriverLib
                                       outputs = AXI-Lite slave ++ AXI master ++ [aw.prot aw.cache ar.prot ar.cache]
   `ahb2wb lg shift` : inputs = [haddr hsize htrans hwdata hwrite hsel] ++ Wishbone slave,
                       outputs = [hrdata hreadyout hresp] ++ Wishbone master
+  `axi2wb aw nb shift base` (AXI2Wishbone = AXI2AXILite + AXILite2Wishbone on a shared AXI-Lite bus):
+        inputs = AXI master ++ Wishbone slave, outputs = AXI slave ++ Wishbone master
+  `wb2axi adrBits shift base size` (Wishbone2AXI = Wishbone2AXILite + AXILite2AXI(INCR, ids 0)):
+        inputs = Wishbone master ++ AXI slave, outputs = Wishbone slave ++ AXI master
   `wb2axl adrBits shift base` : inputs = Wishbone master ++ AXI-Lite slave, outputs = Wishbone slave ++ AXI-Lite master
 -/
 namespace Litex.Bridge
@@ -128,6 +132,31 @@ def numAhb2Wb (c : AhbCfg) : NumMachine AhbState where
     | _, _ => none
   key s := toString (repr s)
 
+/-- AXI2Wishbone: the two bridges share an AXI-Lite interface; AXI2AXILite's AXI-Lite requests do not depend on
+    the AXI-Lite answers of the same cycle, so the combinational coupling is a plain composition. -/
+def numAxi2Wb (c : A2WCfg) : NumMachine (X2LState × A2WState) where
+  init := (Axi2Axl.init, Axl2Wb.init)
+  step s ins :=
+    match AxiM.ofNums (ins.take 18), WbS.ofNums (ins.drop 18) with
+    | some m, some r =>
+      let q := Axi2Axl.toSlave c.aw s.1 m
+      let a := Axl2Wb.toMaster s.2 q r
+      some ((Axi2Axl.next c.aw s.1 m a, Axl2Wb.next s.2 q r),
+            (Axi2Axl.toMaster c.aw s.1 m a).toNums ++ (Axl2Wb.toSlave c s.2 q).toNums)
+    | _, _ => none
+  key s := toString (repr s)
+
+def numWb2Axi (c : W2ACfg) (size : Nat) : NumMachine W2AState where
+  init := Wb2Axl.init
+  step s ins :=
+    match WbM.ofNums (ins.take 6), AxiS.ofNums (ins.drop 6) with
+    | some m, some r =>
+      let l : L2XCfg := { size := size, burst := 1, prot := 0, wid := 0, rid := 0 }
+      let a := Axl2Axi.toMaster r
+      some (Wb2Axl.next s m a, (Wb2Axl.toMaster s m a).toNums ++ (Axl2Axi.toSlave l (Wb2Axl.toSlave c s m)).toNums)
+    | _, _ => none
+  key s := toString (repr s)
+
 def openMachine (args : List String) (hin hout : IO.FS.Stream) : Option (IO Bool) :=
   match args with
   | name :: rest =>
@@ -145,6 +174,9 @@ def openMachine (args : List String) (hin hout : IO.FS.Stream) : Option (IO Bool
       | "axl2axi", [size, burst, prot, wid, rid] =>
         some (serve (numAxl2Axi { size := size, burst := burst, prot := prot, wid := wid, rid := rid }) hin hout)
       | "ahb2wb", [lg, shift] => some (serve (numAhb2Wb { lg := lg, shift := shift }) hin hout)
+      | "axi2wb", [aw, nb, shift, base] => some (serve (numAxi2Wb { aw := aw, nb := nb, shift := shift, base := base }) hin hout)
+      | "wb2axi", [ab, shift, base, size] => some (serve (numWb2Axi { adrBits := ab, shift := shift, base := base } size) hin hout)
+      | "unit", [] => some (serve ({ init := (), step := fun _ _ => some ((), []), key := fun _ => "()" } : NumMachine Unit) hin hout)
       | "wb2axl", [ab, shift, base] => some (serve (numWb2Axl { adrBits := ab, shift := shift, base := base }) hin hout)
       | _, _ => none
   | _ => none
